@@ -3,6 +3,7 @@ Correspondence: Lean `ParamVerif.Copy` (object graph, watcher tables, `__setstat
 graph copy) vs `copy.deepcopy` / `pickle` on real Parameterized objects of the module-level classes
 below; oracle = lean/ParamVerif/Store/CopySpec.lean on what the real code did."""
 import copy
+import functools
 import glob
 import json
 import os
@@ -33,7 +34,7 @@ TRUSTED = [
 ]
 ASSUMPTIONS = [
     'classes Sub / Top / Plain below: Integer and list-valued parameters, Selectors declared without objects (by value / by name), sub-objects in ClassSelector parameters, '
-    'one-level dependencies depends("p") / depends("a.x") / depends("a.y", "b.y") with watch=True, explicit bound-method watchers',
+    'explicit watchers (bound method, functools.partial of a bound method, watcher of the Parameter attribute bounds), an attribute in __slots__, one-level dependencies depends("p") / depends("a.x") / depends("a.y", "b.y") with watch=True, explicit bound-method watchers',
     'deeper dependency paths (their parent-notification callback is a closure: not picklable), watchers with what != value, '
     'lambdas, references (allow_refs), async methods and class-level watchers are outside the model',
 ]
@@ -43,7 +44,7 @@ RULE = ('histories of object creation, sets, in-place mutations, per-instance Pa
         'both graphs at copy time and after every later operation, invocation logs with the side of every invoked object, '
         'and the same copy-side operations on a twin of the original. non-trivial = the copy succeeded, >=2 post operations, '
         'at least one watcher in the copied graph; distinct = distinct canonical case')
-COVERAGE_TARGETS = ['copy:ok', 'selector:set-after-copy', 'selector:named-after-copy', 'selector:own-copy-before-copy', 'mech:deepcopy', 'mech:pickle2', 'mech:pickle3', 'mech:pickle4', 'mech:pickle5',
+COVERAGE_TARGETS = ['copy:ok', 'pre:slot-watcher', 'pre:partial-watcher', 'pre:slots-attribute', 'post:pedit-bounds-with-slot-watcher', 'selector:set-after-copy', 'selector:named-after-copy', 'selector:own-copy-before-copy', 'mech:deepcopy', 'mech:pickle2', 'mech:pickle3', 'mech:pickle4', 'mech:pickle5',
                     'root:Top', 'root:Plain', 'root:Sub', 'pre:sub-attached-with-dependency', 'pre:sub-attached-no-dependency',
                     'pre:detached-again', 'pre:pedit', 'pre:attr', 'pre:explicit-watcher', 'pre:cross-object-watcher',
                     'post:orig', 'post:copy', 'post:attach-new-sub', 'post:log-nonempty']
@@ -52,6 +53,7 @@ LOG = []
 
 
 class Sub(param.Parameterized):
+    __slots__ = ['tag']            # an ordinary attribute kept in a slot
     x = param.Integer(0)
     y = param.Integer(0)
     l = param.Parameter([5], instantiate=True)
@@ -63,8 +65,12 @@ class Sub(param.Parameterized):
     def cb(self, *events):
         LOG.append((self, 'cb'))
 
+    def cbt(self, tag, *events):
+        LOG.append((self, 'cbt'))
+
 
 class Top(param.Parameterized):
+    __slots__ = ['tag']
     a = param.ClassSelector(class_=Sub, default=None, allow_None=True)
     b = param.ClassSelector(class_=Sub, default=None, allow_None=True)
     n = param.Integer(1, bounds=(0, 100))
@@ -87,8 +93,12 @@ class Top(param.Parameterized):
     def cb(self, *events):
         LOG.append((self, 'cb'))
 
+    def cbt(self, tag, *events):
+        LOG.append((self, 'cbt'))
+
 
 class Plain(param.Parameterized):
+    __slots__ = ['tag']
     a = param.ClassSelector(class_=Sub, default=None, allow_None=True)
     n = param.Integer(1, bounds=(0, 100))
     l = param.Parameter([1], instantiate=True)
@@ -102,26 +112,29 @@ class Plain(param.Parameterized):
     def cb(self, *events):
         LOG.append((self, 'cb'))
 
+    def cbt(self, tag, *events):
+        LOG.append((self, 'cbt'))
+
 
 PY_CLASSES = [Sub, Top, Plain]
 CLASSES = [
     {'name': 'Sub', 'params': [{'name': 'x', 'default': 0, 'inst': False, 'bounds': None},
                                {'name': 'y', 'default': 0, 'inst': False, 'bounds': None},
                                {'name': 'l', 'default': [5], 'inst': True, 'bounds': None}],
-     'methods': [{'name': 's', 'deps': [['x']]}], 'plain': ['cb']},
+     'methods': [{'name': 's', 'deps': [['x']]}], 'plain': ['cb', 'cbt']},
     {'name': 'Top', 'params': [{'name': 'a', 'default': None, 'inst': True, 'bounds': None},
                                {'name': 'b', 'default': None, 'inst': True, 'bounds': None},
                                {'name': 'n', 'default': 1, 'inst': False, 'bounds': [0, 100]},
                                {'name': 'l', 'default': [1], 'inst': True, 'bounds': None},
                                {'name': 'choice', 'default': None, 'inst': False, 'bounds': None, 'sel': 'choice'},
                                {'name': 'named', 'default': None, 'inst': False, 'bounds': None, 'sel': 'named'}],
-     'methods': [{'name': 'm', 'deps': [['a', 'x']]}, {'name': 'k', 'deps': [['n']]}, {'name': 'mb', 'deps': [['a', 'y'], ['b', 'y']]}], 'plain': ['cb']},
+     'methods': [{'name': 'm', 'deps': [['a', 'x']]}, {'name': 'k', 'deps': [['n']]}, {'name': 'mb', 'deps': [['a', 'y'], ['b', 'y']]}], 'plain': ['cb', 'cbt']},
     {'name': 'Plain', 'params': [{'name': 'a', 'default': None, 'inst': True, 'bounds': None},
                                  {'name': 'n', 'default': 1, 'inst': False, 'bounds': [0, 100]},
                                  {'name': 'l', 'default': [1], 'inst': True, 'bounds': None},
                                  {'name': 'choice', 'default': None, 'inst': False, 'bounds': None, 'sel': 'choice'},
                                  {'name': 'named', 'default': None, 'inst': False, 'bounds': None, 'sel': 'named'}],
-     'methods': [{'name': 'k', 'deps': [['n']]}], 'plain': ['cb']},
+     'methods': [{'name': 'k', 'deps': [['n']]}], 'plain': ['cb', 'cbt']},
 ]
 MECHS = ['deepcopy', 'pickle2', 'pickle3', 'pickle4', 'pickle5']
 
@@ -191,7 +204,32 @@ def _fn_owner(fn):
                 raise RuntimeError(f'changed= filter outside the modelled shape: {ch!r}')
             ch = [[k, None if v is None else list(v)] for k, v in ch.items()]
         return fn.keywords['function'].__self__, 'mcaller', fn._watcher_name, ch
+    if isinstance(fn, functools.partial):
+        return fn.func.__self__, 'partial', fn.func.__name__, None
     return fn.__self__, 'bound', fn.__name__, None
+
+
+def _slot_watchers(o, p):
+    P = o._param__private.params.get(p)
+    if P is None:
+        return []
+    if any(k != 'bounds' for k, v in P.watchers.items() if v):
+        raise RuntimeError(f'slot watchers outside the modelled shape: {P.watchers}')
+    return P.watchers.get('bounds', [])
+
+
+def _attrs(o):
+    """ordinary attributes as attribute access sees them: __dict__ entries and occupied __slots__"""
+    names = set(k for k in o.__dict__ if k != '_param__private')
+    for K in type(o).__mro__:
+        names.update(K.__dict__.get('__slots__', ()))
+    out = []
+    for k in sorted(names):
+        try:
+            out.append((k, getattr(o, k)))
+        except AttributeError:
+            pass
+    return out
 
 
 def _wlist(o, p):
@@ -206,6 +244,9 @@ def _children(o):
             out.append(v)
     for p in _params(o):
         for w in _wlist(o, p):
+            out += [w.inst, _fn_owner(w.fn)[0]]
+    for p in _params(o):
+        for w in _slot_watchers(o, p):
             out += [w.inst, _fn_owner(w.fn)[0]]
     for m in _methods(o):
         for w in o._param__private.dynamic_watchers.get(m, []):
@@ -234,7 +275,7 @@ def _label(order, o):
 def _cells(order):
     out = []
     for o in order:
-        vals = [getattr(o, p) for p in _params(o)] + [v for k, v in sorted(o.__dict__.items()) if k != '_param__private']
+        vals = [getattr(o, p) for p in _params(o)] + [v for k, v in _attrs(o)]
         for v in vals:
             if isinstance(v, list) and not any(v is c for c in out):
                 out.append(v)
@@ -264,6 +305,13 @@ def _sel_view(o, name):
     return [list(P._objects), list(names.values())]
 
 
+def _wrow(w, order, what):
+    own, kind, meth, changed = _fn_owner(w.fn)
+    if w.what != what or w.mode != 'args' or w.queued or not w.onlychanged:
+        raise RuntimeError(f'watcher outside the modelled shape: {w}')
+    return [_label(order, w.inst), kind, _label(order, own), meth, changed, w.precedence]
+
+
 def snapshot(root):
     order = _order(root)
     cells = _cells(order)
@@ -274,13 +322,7 @@ def snapshot(root):
         for p in _params(o):
             l = _wlist(o, p)
             if l:
-                row = []
-                for w in l:
-                    own, kind, meth, changed = _fn_owner(w.fn)
-                    if w.what != 'value' or w.mode != 'args' or w.queued or not w.onlychanged:
-                        raise RuntimeError(f'watcher outside the modelled shape: {w}')
-                    row.append([_label(order, w.inst), kind, _label(order, own), meth, changed, w.precedence])
-                ws.append([p, row])
+                ws.append([p, [_wrow(w, order, 'value') for w in l]])
         dyn = []
         for m in _methods(o):
             l = priv.dynamic_watchers.get(m, [])
@@ -295,10 +337,11 @@ def snapshot(root):
             'cls': type(o).__name__,
             'values': [[p, p in priv.values, _val(getattr(o, p), order, cells)] for p in _params(o)],
             'pcopies': [[p, (list(priv.params[p].bounds) if getattr(priv.params[p], 'bounds', None) is not None else None),
-                         bool(priv.params[p].constant)] for p in _params(o) if p in priv.params],
+                         bool(priv.params[p].constant), [_wrow(w, order, 'bounds') for w in _slot_watchers(o, p)]]
+                        for p in _params(o) if p in priv.params],
             'sel': [[p['name'], p['name'] in priv.params] + _sel_view(o, p['name'])
                     for p in CLASSES[PY_CLASSES.index(type(o))]['params'] if p.get('sel')],
-            'attrs': [[k, _val(v, order, cells)] for k, v in sorted(o.__dict__.items()) if k != '_param__private'],
+            'attrs': [[k, _val(v, order, cells)] for k, v in _attrs(o)],
             'watchers': ws, 'dyn': dyn})
     return snap
 
@@ -345,6 +388,10 @@ class _Side:
             self.ref(op['o']).param[op['p']].objects[f'k{op["n"]}'] = op['n']
         elif o == 'watch':
             self.ref(op['o']).param.watch(getattr(self.ref(op['target']), op['cb']), [op['p']])
+        elif o == 'watchPartial':
+            self.ref(op['o']).param.watch(functools.partial(getattr(self.ref(op['target']), op['cb']), 'T'), [op['p']])
+        elif o == 'watchSlot':
+            self.ref(op['o']).param.watch(getattr(self.ref(op['target']), op['cb']), [op['p']], what='bounds')
         else:
             raise RuntimeError(o)
         return list(LOG)
@@ -462,6 +509,14 @@ def watch(o, p, target, cb='cb'):
     return {'op': 'watch', 'o': o, 'p': p, 'target': target, 'cb': cb}
 
 
+def watchp(o, p, target):
+    return {'op': 'watchPartial', 'o': o, 'p': p, 'target': target, 'cb': 'cbt'}
+
+
+def watchs(o, p, target):
+    return {'op': 'watchSlot', 'o': o, 'p': p, 'target': target, 'cb': 'cb'}
+
+
 def case(pre, root, mech, post):
     return {'policy': policy(), 'classes': CLASSES, 'pre': pre, 'root': root, 'mech': mech,
             'post': [{'side': s, 'op': o} for s, o in post]}
@@ -507,6 +562,12 @@ def directed():
                     ('copy', seladd(CP(), 'named', 2)), ('copy', seladd(CP(), 'named', 2)), ('orig', set_(H(0), 'choice', 5)), ('copy', pedit(CP(), 'choice', constant=False))])
         yield case([new(TOP), set_(H(0), 'choice', 3), seladd(H(0), 'named', 4)], H(0), mech,
                    [('copy', set_(CP(), 'choice', 7)), ('orig', seladd(H(0), 'named', 8)), ('copy', seladd(CP(), 'named', 9)), ('orig', set_(H(0), 'choice', 1))])
+        # watchers of a Parameter attribute, functools.partial callbacks, an attribute kept in __slots__
+        yield case([new(SUB, x=1), new(PLAIN, a=R(H(0))), watchs(H(1), 'n', H(1)), watchs(H(0), 'x', H(1)), watchp(H(1), 'n', H(1)),
+                    watchp(H(0), 'y', H(0)), setattr_(H(1), 'tag', [1]), setattr_(H(0), 'tag', 2), pedit(H(1), 'n', bounds=[0, 50])], H(1), mech,
+                   [('copy', pedit(CP(), 'n', bounds=[0, 60])), ('orig', pedit(H(1), 'n', bounds=[0, 70])), ('copy', pedit(CP('a'), 'x', bounds=[0, 9])),
+                    ('copy', pedit(CP(), 'n', bounds=[0, 60])), ('copy', set_(CP(), 'n', 4)), ('orig', set_(H(0), 'y', 3)), ('copy', set_(CP('a'), 'y', 3)),
+                    ('copy', mutattr(CP(), 'tag', 5)), ('orig', setattr_(H(1), 'tag', 7)), ('copy', pedit(CP(), 'n', bounds=None))])
         # both slots, one sub-object shared by two parents
         yield case([new(SUB, x=1), new(SUB, y=2), new(TOP, a=R(H(0)), b=R(H(1))), new(TOP, a=R(H(0)))], H(2), mech, [])
 
@@ -580,10 +641,15 @@ def _random_case(rng, mech):
             nd['attrs'][name] = 'int'
             return setattr_(target_ref, name, rng.randint(1, 9))
         if r < 0.8:
-            if cls != SUB and rng.random() < 0.7:
+            if cls != SUB and rng.random() < 0.6:
                 return (set_(target_ref, 'choice', rng.randint(1, 6)) if rng.random() < 0.5
                         else seladd(target_ref, 'named', rng.randint(1, 6)))
-            return watch(target_ref, rng.choice(ints), target_ref)
+            k = rng.random()
+            if k < 0.4:
+                return watch(target_ref, rng.choice(ints), target_ref)
+            if k < 0.7:
+                return watchp(target_ref, rng.choice(ints), target_ref)
+            return watchs(target_ref, rng.choice(ints), target_ref)
         if cls != SUB:
             slot = rng.choice(['a', 'b'] if cls == TOP else ['a'])
             if r < 0.9 and fresh:
@@ -602,8 +668,8 @@ def _random_case(rng, mech):
         h = rng.choice([root] * 3 + list(range(len(nodes))))
         nd = nodes[h]
         op = one_op(H(h), nd, {}, [i for i in range(nsub)])
-        if op['op'] == 'watch' and nd['cls'] == SUB and rng.random() < 0.5:
-            op = watch(H(h), op['p'], H(root))                      # the root watches a sub-object explicitly
+        if op['op'] in ('watch', 'watchPartial', 'watchSlot') and nd['cls'] == SUB and rng.random() < 0.5:
+            op = dict(op, target=H(root))                            # the root watches a sub-object explicitly
         pre.append(op)
     # post histories
     import copy as _c
@@ -631,7 +697,7 @@ def _random_case(rng, mech):
             nd = shadow[rnode[s]]
             ref = CP(s) if side == 'copy' else H(root, s)
             op = one_op(ref, nd, {}, [])
-            if op['op'] == 'watch':
+            if op['op'] in ('watch', 'watchPartial', 'watchSlot'):
                 continue
         else:
             ref = CP() if side == 'copy' else H(root)
@@ -647,7 +713,7 @@ def cases(rng, tier, worker, nworkers):
         for f in sorted(glob.glob(os.path.join(os.path.dirname(__file__), '..', '..', 'corpus', 'C17', '*.json'))):
             yield dict(json.load(open(f))['case'], policy=policy(), classes=CLASSES)
         yield from directed()
-    n_random = 3000 if tier == "quick" else 40000 // nworkers
+    n_random = 2200 if tier == "quick" else 40000 // nworkers
     for j in range(n_random):
         yield _random_case(rng, MECHS[j % len(MECHS)])
 
@@ -668,12 +734,18 @@ def tags(case, impl):
         attached = any(isinstance(v, dict) and 'o' in v for _, _, v in snap[0]['values'])
         if attached:
             t.append('pre:sub-attached-with-dependency' if _has_foreign_dep_watcher(snap) else 'pre:sub-attached-no-dependency')
-        if any(o['pcopies'] and any(b != [0, 100] and b is not None or c for _, b, c in o['pcopies']) for o in snap):
+        if any(o['pcopies'] and any(b != [0, 100] and b is not None or c for _, b, c, _sw in o['pcopies']) for o in snap):
             t.append('pre:pedit')
         if any(o['attrs'] for o in snap):
             t.append('pre:attr')
         if any(w[1] == 'bound' for o in snap for _, ws in o['watchers'] for w in ws):
             t.append('pre:explicit-watcher')
+        if any(w[1] == 'partial' for o in snap for _, ws in o['watchers'] for w in ws):
+            t.append('pre:partial-watcher')
+        if any(sw for o in snap for _, _, _, sw in o['pcopies']):
+            t.append('pre:slot-watcher')
+        if any(k == 'tag' for o in snap for k, _ in o['attrs']):
+            t.append('pre:slots-attribute')
         if any(w[1] == 'bound' and w[0] != w[2] for o in snap for _, ws in o['watchers'] for w in ws):
             t.append('pre:cross-object-watcher')
         sets = [op for op in case['pre'] if op['op'] == 'set' and op['p'] in ('a', 'b') and op['a'] is None]
@@ -683,6 +755,8 @@ def tags(case, impl):
             t.append('selector:own-copy-before-copy')
         for p, po in zip(case['post'], impl.get('post', [])):
             t.append('post:' + p['side'])
+            if p['op']['op'] == 'pedit' and 'bounds' in p['op'] and po['log']:
+                t.append('post:pedit-bounds-with-slot-watcher')
             if p['op']['op'] == 'selAdd':
                 t.append('selector:named-after-copy')
             if p['op']['op'] == 'set' and p['op']['p'] == 'choice':
